@@ -725,7 +725,7 @@ func sectionPipelines(data [][]byte) {
 		}
 		full, err := sdDecode(pl, inter[0], -1, -1)
 		if err != nil || !bytes.Equal(full, d) {
-			r.OracleFail("pipeline-full-decode:"+pname, inp("limit", -1), "unlimited decoding of the generated encoding fails or differs: "+trunc(res(full, err)))
+			r.OracleFail("pipeline-full-decode", inp("limit", -1), "unlimited decoding of the generated encoding fails or differs: "+trunc(res(full, err)))
 			continue
 		}
 		r.OracleOK()
@@ -752,7 +752,7 @@ func sectionPipelines(data [][]byte) {
 			case int64(maxInter) > L && cls(gerr) == "limit":
 				r.OracleOK()
 			default:
-				r.OracleFail("pipeline-limit-not-exact:"+pname, inp("limit", L), fmt.Sprintf("stage outputs up to %d bytes, final %d, limit %d, got %s", maxInter, F, L, trunc(res(got, gerr))))
+				r.OracleFail("pipeline-limit-not-exact", inp("limit", L), fmt.Sprintf("stage outputs up to %d bytes, final %d, limit %d, got %s", maxInter, F, L, trunc(res(got, gerr))))
 			}
 		}
 		for _, nn := range grid(F) {
@@ -767,7 +767,7 @@ func sectionPipelines(data [][]byte) {
 			case int(nn) > F && (e == "eof" || e == "unexpeof"):
 				r.OracleOK()
 			default:
-				r.OracleFail("pipeline-bounded-not-prefix:"+pname, inp("maxLen", nn), fmt.Sprintf("final %d bytes, got %s", F, trunc(res(got, gerr))))
+				r.OracleFail("pipeline-bounded-not-prefix", inp("maxLen", nn), fmt.Sprintf("final %d bytes, got %s", F, trunc(res(got, gerr))))
 			}
 		}
 		if allModel {
